@@ -57,13 +57,22 @@ type Conn struct {
 	rdl, wdl time.Time
 	closed   chan struct{}
 	once     sync.Once
+	// dlChanged wakes a stalled operation when a deadline is (re)set
+	dlChanged chan struct{}
+}
+
+func (c *Conn) poke() {
+	select {
+	case c.dlChanged <- struct{}{}:
+	default:
+	}
 }
 
 func Wrap(c net.Conn, plan *Plan) *Conn {
 	if plan == nil {
 		plan = &Plan{At: -1}
 	}
-	return &Conn{Conn: c, plan: plan, closed: make(chan struct{})}
+	return &Conn{Conn: c, plan: plan, closed: make(chan struct{}), dlChanged: make(chan struct{}, 1)}
 }
 
 // Ops is the number of Read/Write calls seen so far.
@@ -115,16 +124,19 @@ func (c *Conn) inject(k int, isRead bool) (bool, error) {
 		c.Close()
 		return false, nil
 	case Stall:
+		// The operation never completes: it ends with a timeout as soon as a deadline is in
+		// force (reported at once -- the caller sees exactly the error it would see after
+		// waiting; not consuming virtual time avoids freezing a bubble in which another
+		// goroutine waits on a mutex held by our caller) or when the connection is closed.
 		for {
+			if d := c.deadline(isRead); !d.IsZero() {
+				return true, os.ErrDeadlineExceeded
+			}
 			select {
 			case <-c.closed:
 				return true, net.ErrClosed
-			default:
+			case <-c.dlChanged:
 			}
-			if d := c.deadline(isRead); !d.IsZero() && !time.Now().Before(d) {
-				return true, os.ErrDeadlineExceeded
-			}
-			time.Sleep(50 * time.Millisecond)
 		}
 	}
 	return false, nil
@@ -155,6 +167,7 @@ func (c *Conn) SetDeadline(t time.Time) error {
 	c.mu.Lock()
 	c.rdl, c.wdl = t, t
 	c.mu.Unlock()
+	c.poke()
 	return c.Conn.SetDeadline(t)
 }
 
@@ -162,6 +175,7 @@ func (c *Conn) SetReadDeadline(t time.Time) error {
 	c.mu.Lock()
 	c.rdl = t
 	c.mu.Unlock()
+	c.poke()
 	return c.Conn.SetReadDeadline(t)
 }
 
@@ -169,6 +183,7 @@ func (c *Conn) SetWriteDeadline(t time.Time) error {
 	c.mu.Lock()
 	c.wdl = t
 	c.mu.Unlock()
+	c.poke()
 	return c.Conn.SetWriteDeadline(t)
 }
 
